@@ -103,6 +103,9 @@ def r1(F, R):
             if not (is_fault(e) or is_channel(e) or "PoisonError" in e):
                 skipped_types.add(e[:60])
                 continue
+            if "std::fmt::Error" in e and str(c.get("self_ty") or "").replace("&mut ", "") in ("std::string::String", "String", "alloc::string::String"):
+                skipped_types.add("fmt::Error of a write into a String (infallible)")
+                continue
             outs = E.classify(b, t["dest"]["l"])
             site = "%s @%s" % (p, loc(t["span"]))
             for o in outs:
@@ -445,8 +448,12 @@ def r6(F, R):
             ds = b.defs().get(l, [])
             if not ds:
                 continue
-            n += 1
             d = ds[0]
+            # formatting into a String cannot fail (`<String as fmt::Write>` never returns Err): `let _ = write!(line, ..)` drops nothing
+            if d[0] == "call" and ty == "std::result::Result<(), std::fmt::Error>" and str(d[3]["callee"].get("self_ty") or "").replace("&mut ", "") in (
+                    "std::string::String", "String", "alloc::string::String"):
+                continue
+            n += 1
             what = d[3]["callee"].get("name") if d[0] == "call" else "value"
             if what == "send" and "SendError<sampler::ChainCommand>" in ty:
                 what = "send<ChainCommand>"
